@@ -4,6 +4,7 @@ void registerTransform();
 void registerSerialize();
 void registerNodeList();
 void registerLowLevel();
+void registerCapi();
 void registerAll()
 {
     registerNum();
@@ -12,4 +13,5 @@ void registerAll()
     registerSerialize();
     registerNodeList();
     registerLowLevel();
+    registerCapi();
 }
